@@ -12,13 +12,18 @@ select_nnf: the same evaluator and oracle on near-noise-free smooth data (tiny y
            estimated and wide user-supplied bounds), where L-BFGS-B legitimately ends some runs abnormally (ill-conditioned
            K + S, numerically noisy score); the termination flags are observed (pass-through) for the tags only.
 diffev   : optimizer="diffev" under numpy.random.seed(VERIF_SEED): result in hp_bounds only.
+input_forms: "reject or be right" - y_err / y_cov / y / x handed to the constructor in other container forms ((N,1), (1,N), lists,
+           tuples, scalars / 0-d / length-1 for a common error, Fortran order, strided views, extra axes): a form the constructor
+           ACCEPTS must give all scores, gradients, predictions and leave-one-out predictions of the canonical flat-array form
+           (forms/<argument>/<form>/accepted-but-<operation>-<part>-differs-from-canonical-form, ../accepted-but-<operation>-raises:<Type>);
+           a form refused with ValueError / TypeError is fine and counted as rejected in the tags.
 """
 import itertools
 import math
 
 import numpy as np
 
-from mc.core import HarnessError, fail, lib
+from mc.core import HarnessError, LibFailure, fail, lib
 
 LEVEL = "exploration"
 
@@ -918,7 +923,153 @@ def ev_two_models(case):
     return {"fails": fails, "n": nev, "tags": tags, "slack": slack, "sample": {"objects": desc, "histories": nseq, "operations": nev}}
 
 
-EVALUATORS = {"scores": ev_scores, "select": ev_select, "select_nnf": ev_select_nnf, "diffev": ev_diffev, "select_mp": ev_select_mp, "two_models": ev_two_models}
+# ------------------------------------------------------------------ evaluator: input forms ("reject or be right")
+# The data may reach the constructor in other container forms than the documented flat arrays.  The property does not say which
+# forms are accepted - a constructor that refuses one with ValueError / TypeError is fine - but a form that IS accepted must
+# give exactly the scores of the canonical form holding the same numbers (flat float arrays; (N,d) x; (N,N) y_cov).
+FORM_ARGS = ["y_err", "y_cov", "y", "x"]
+
+
+def _strided(a):
+    """the same values as a non-contiguous view of a larger array"""
+    a = np.asarray(a, dtype=float)
+    big = np.zeros((2 * a.shape[0],) + a.shape[1:], dtype=float)
+    big[::2] = a
+    return big[::2]
+
+
+def input_forms(arg, des):
+    """[(form name, object to pass, canonical replacement or None = the design's own canonical value)]"""
+    n, d = des["n"], des["d"]
+    if arg == "y_err":
+        e = np.array(des["y_err"], dtype=float)
+        e0 = float(e[0])
+        uni = np.full(n, e0)
+        return [
+            ("(N,1)-array", e.reshape(n, 1).copy(), None), ("(1,N)-array", e.reshape(1, n).copy(), None), ("list", e.tolist(), None), ("tuple", tuple(e.tolist()), None),
+            ("list-of-1-lists", [[v] for v in e.tolist()], None), ("(1,N)-list", [e.tolist()], None), ("strided-view", _strided(e), None), ("(N,1)-strided-view", _strided(e.reshape(n, 1)), None),
+            ("(N,1,1)-array", e.reshape(n, 1, 1).copy(), None),
+            ("python-float:same-error-for-all", e0, uni), ("0-d-array:same-error-for-all", np.array(e0), uni), ("length-1-array:same-error-for-all", np.array([e0]), uni),
+            ("(1,1)-array:same-error-for-all", np.array([[e0]]), uni), ("length-1-list:same-error-for-all", [e0], uni),
+        ]
+    if arg == "y_cov":
+        C = np.array(des["y_cov"], dtype=float)
+        return [
+            ("list-of-lists", C.tolist(), None), ("tuple-of-tuples", tuple(tuple(r) for r in C.tolist()), None), ("list-of-row-arrays", [r.copy() for r in C], None),
+            ("fortran-order-array", np.asfortranarray(C), None), ("strided-view", _strided(C), None), ("(1,N,N)-array", C.reshape(1, n, n).copy(), None), ("(N,N,1)-array", C.reshape(n, n, 1).copy(), None),
+        ]
+    if arg == "y":
+        y = np.array(des["y"], dtype=float)
+        return [
+            ("(N,1)-array", y.reshape(n, 1).copy(), None), ("(1,N)-array", y.reshape(1, n).copy(), None), ("list", y.tolist(), None), ("tuple", tuple(y.tolist()), None),
+            ("list-of-1-lists", [[v] for v in y.tolist()], None), ("strided-view", _strided(y), None), ("(N,1)-strided-view", _strided(y.reshape(n, 1)), None), ("(N,1,1)-array", y.reshape(n, 1, 1).copy(), None),
+        ]
+    X = np.array(des["X"], dtype=float)
+    if d == 1:
+        return [
+            ("flat-(N,)-array", X[:, 0].copy(), None), ("list-of-floats", X[:, 0].tolist(), None), ("tuple-of-floats", tuple(X[:, 0].tolist()), None), ("list-of-1-lists", X.tolist(), None),
+            ("(N,1)-strided-view", _strided(X), None), ("flat-strided-view", _strided(X[:, 0]), None), ("(1,N)-array", X.reshape(1, n).copy(), None), ("(N,1,1)-array", X.reshape(n, 1, 1).copy(), None),
+        ]
+    return [
+        ("list-of-lists", X.tolist(), None), ("tuple-of-tuples", tuple(tuple(r) for r in X.tolist()), None), ("list-of-row-arrays", [r.copy() for r in X], None),
+        ("fortran-order-array", np.asfortranarray(X), None), ("strided-view", _strided(X), None), ("(N,d,1)-array", X.reshape(n, d, 1).copy(), None), ("(d,N)-transposed-array", np.ascontiguousarray(X.T), None),
+    ]
+
+
+def ev_input_forms(case):
+    from inference.gp import GpRegressor
+
+    des, kspec, mspec, arg = case["design"], case["kernel"], case["mean"], case["arg"]
+    n, d = des["n"], des["d"]
+    th = np.array(case["theta"], dtype=float)
+    X, y = np.array(des["X"], dtype=float), np.array(des["y"], dtype=float)
+    points = np.vstack([X[:-1] + 0.37 * (X[1:] - X[:-1]), X.min(axis=0) - 0.2 * (X.max(axis=0) - X.min(axis=0))])
+    cfg = "k=%s,m=%s,d=%d,n=%d,noise=%s" % (kname(kspec), mspec, d, n, des["noise"])
+    fails, tags, slack, seen, skipped = [], set(), {}, set(), {}
+    nev = 0
+
+    def add(key, what, **ctx):
+        if key not in seen:
+            seen.add(key)
+            fails.append(fail(key, what, config=cfg, theta=th.tolist(), **ctx))
+
+    def build(**over):
+        kw = dict(x=X.copy(), y=y.copy(), **noise_kwargs(des))
+        kw.update(over)
+        return GpRegressor(kw.pop("x"), kw.pop("y"), kernel=lib_kernel(kspec), mean=lib_mean(mspec), hyperpars=th.copy(), **kw)
+
+    def all_ops(gp):
+        out = {}
+        for op in GP_OPS:
+            out[op] = gp_op(gp, op, th, points)
+        return out
+
+    canon = {}
+
+    def canonical(repl):
+        key = None if repl is None else np.asarray(repl, dtype=float).tobytes()
+        if key not in canon:
+            with lib("construct-canonical"):
+                g = build(**({} if repl is None else {arg: np.asarray(repl, dtype=float).copy()}))
+            if g.n_hyperpars != len(th):
+                raise HarnessError("hyper-parameter layout: model has %d, case %d" % (g.n_hyperpars, len(th)))
+            pm = g.n_hyperpars - g.cov.n_params
+            with lib("build_covariance"):
+                A = np.asarray(g.cov.build_covariance(th[pm:].copy()), dtype=float) + np.asarray(g.sig, dtype=float)
+            sv = np.linalg.svd(A, compute_uv=False)
+            cond = float(sv[0] / sv[-1]) if sv[-1] > 0 else float("inf")
+            canon[key] = (all_ops(g), cond)
+        return canon[key]
+
+    for fname, obj, repl in input_forms(arg, des):
+        want, cond = canonical(repl)
+        if not cond <= COND_MAX:
+            skipped["cond(K+S) > 1e10"] = skipped.get("cond(K+S) > 1e10", 0) + 1
+            continue
+        rtol = max(TWO_RTOL, 64 * 2.220446049250313e-16 * cond)
+        try:
+            with lib("construct-form", allow=(ValueError, TypeError)):
+                gp = build(**{arg: obj})
+        except (ValueError, TypeError) as e:
+            tags.add("form %s=%s d=%d: rejected by the constructor (%s)" % (arg, fname, d, type(e).__name__))
+            continue
+        except LibFailure as e:
+            # the constructor broke on the form (e.g. AttributeError on a list): no model exists, nothing wrong can be computed from it -
+            # the property (scores of a model are right) is not contradicted; counted separately from the deliberate refusals
+            tags.add("form %s=%s d=%d: not accepted, the constructor raised %s (not a deliberate refusal)" % (arg, fname, d, e.exc_type))
+            continue
+        nev += 1
+        okform = True
+        for op in GP_OPS:
+            try:
+                got = gp_op(gp, op, th, points)
+            except LibFailure as e:
+                add("forms/%s/%s/accepted-but-%s-raises:%s" % (arg, fname.split(":")[0], op, e.exc_type),
+                    "GpRegressor accepted %s given as %s, then %s" % (arg, fname, e), form=fname, op=op, traceback=e.tb[-1500:])
+                okform = False
+                continue
+            nev += 1
+            for (nm, g), (_, w) in zip(got, want[op]):
+                if g.shape != w.shape:
+                    r = float("inf")
+                elif g.tobytes() == w.tobytes():
+                    r = 0.0
+                elif not (np.all(np.isfinite(g)) and np.all(np.isfinite(w))):
+                    r = float("inf")
+                else:
+                    r = float(np.abs(g - w).max()) / max(float(np.abs(w).max()), 1.0 if nm == "value" else 0.0, 1e-300)
+                slack["forms/%s/%s" % (arg, op)] = max(slack.get("forms/%s/%s" % (arg, op), 0.0), (r / rtol) if np.isfinite(r) else 0.0)
+                if not r <= rtol:
+                    okform = False
+                    add("forms/%s/%s/accepted-but-%s-%s-differs-from-canonical-form" % (arg, fname.split(":")[0], op, nm),
+                        "GpRegressor accepted %s given as %s (%s), but %s %s = %s whereas the same numbers given in the canonical flat-array form give %s (relative difference %.3g, allowed %.3g)"
+                        % (arg, fname, type(obj).__name__ + str(np.shape(obj)), op, nm, g.tolist(), w.tolist(), r, rtol), form=fname, op=op, observed=g.tolist(), expected=w.tolist())
+        tags.add("form %s=%s d=%d: accepted%s" % (arg, fname, d, "" if okform else " (wrong)"))
+    tags.add("forms-config %s,arg=%s" % (cfg, arg))
+    return {"fails": fails, "n": nev, "tags": tags, "slack": slack, "skipped": skipped, "sample": {"config": cfg, "arg": arg, "forms": [f[0] for f in input_forms(arg, des)]}}
+
+
+EVALUATORS = {"input_forms": ev_input_forms, "scores": ev_scores, "select": ev_select, "select_nnf": ev_select_nnf, "diffev": ev_diffev, "select_mp": ev_select_mp, "two_models": ev_two_models}
 
 
 # --------------------------------------------------------------------------- run
@@ -1141,7 +1292,28 @@ def run(ck):
     two.sort(key=lambda c: -((len(GP_OPS) * len(c["objects"])) ** c["max_len"]))
     ck.run_cases("two_models", two, chunk=1)
 
+    # ---------------------------------------------------------------- input forms: reject or be right
+    fcases = []
+    fnd = [(4, 1), (5, 2), (3, 2), (5, 1), (8, 1), (4, 2)]
+    for ai, arg in enumerate(FORM_ARGS):
+        for j in range(4 if quick else len(fnd)):  # any four consecutive entries hold both d = 1 and d = 2
+            n, d = fnd[(ai + j + seed) % len(fnd)]
+            for ki in range(1 if quick else 2):
+                rot = seed + ai + j + ki
+                noise = arg if arg in ("y_err", "y_cov") else noises[rot % 3]
+                kspec, mspec = KERNELS[(rot + ki) % len(KERNELS)], MEANS[(rot + 2 * ki) % len(MEANS)]
+                des = make_design(n, d, kinds[rot % 4], seed, noise)
+                lat = hp_lattice(kspec, mspec, des, (9, rot))
+                fcases.append({"design": des, "kernel": kspec, "mean": mspec, "theta": lat[(rot + 1) % len(lat)], "arg": arg})
+    ck.run_cases("input_forms", fcases, chunk=1)
+    ck.extra["input_form_cases"] = len(fcases)
+
     ck.rule = (
+        "input_forms (keys forms/..): for each of the constructor arguments y_err, y_cov, y, x every listed container form of the SAME numbers (y_err / y: (N,1), (1,N), (N,1,1) arrays, list, tuple, list of 1-lists, "
+        "(1,N) list, strided views; y_err also a Python float, 0-d, length-1 and (1,1) array, length-1 list meaning one error for all points; y_cov: list of lists, tuple of tuples, list of row arrays, Fortran order, "
+        "strided view, (1,N,N), (N,N,1); x: flat / list / tuple / list of 1-lists / strided / (1,N) / (N,1,1) for d = 1, list of lists / tuple of tuples / list of rows / Fortran order / strided / (N,d,1) / transposed for d = 2) "
+        "on four designs (d = 1 and d = 2) per argument (thorough: six designs x two kernel / mean pairs): a form the constructor ACCEPTS must give marginal_likelihood, loo_likelihood, both gradient variants, "
+        "predictions and loo_predictions equal (bit for bit, else max(1e-12, 64 eps cond(K+S)) relative) to those of the canonical flat-array form; a form the constructor refuses (ValueError / TypeError) is counted as rejected in the tag. "
         "scores: cartesian lattice designs (n in 3,5,8; d in 1,2; 4 point layouts) x noise (none, y_err, full y_cov) x kernels (SE, RQ, SE+WN, "
         "CP(SE,SE)) x means (constant, linear, quadratic) x {low,mid,high} per hyper-parameter block (mean, amplitude, length-scale, extra) "
         "(quick: Latin thirds/ninths of the hyper-parameter product); distinct = (configuration, decade of cond(K+S)). select: every tuple of "
@@ -1158,6 +1330,8 @@ def run(ck):
         "objects {all built first, each built at first use}: every sequence of operations (object, {marginal_likelihood, loo_likelihood, their gradient variants, prediction at new points, "
         "loo_predictions}), compared bit-for-bit (else 1e-12) with the same operation on that object alone." % len(trip)
     )
+    ck.assume("input forms: which container forms the constructor accepts is not part of the claim (any may be refused with ValueError / TypeError; a constructor that breaks with another exception type on "
+              "an undocumented form, e.g. AttributeError for y_cov given as a list, produces no model and is counted in a separate tag, not as a violation); a scalar / length-1 y_err, if accepted, can only mean the same error for every point")
     ck.assume("continuous inputs are represented by the listed finite lattices; n <= 8 (50-digit reference); points with cond(K+S) > 1e10 are skipped and counted")
     ck.assume("the diagonal stabiliser of smooth kernels is accepted as any relative inflation in [0,1e-10] of the kernel diagonal (measured from the model's data covariance)")
     ck.assume("near-noise-free selection designs are limited to stated errors of 1e-3..1e-6 of the data range, n <= 15, one smooth target function and the listed input layouts; an exception escaping from the constructor on such data is reported as a violation")
